@@ -362,24 +362,33 @@ impl Part for Soundness {
 pub struct ExactlyOnce;
 
 fn html_unescape(s: &str) -> String {
+    // any numeric character reference and the five named ones: which characters the engine
+    // chooses to escape beyond the required ones, and how it spells them, is its own business
     let mut out = String::new();
     let mut i = 0;
     'outer: while i < s.len() {
         if s.as_bytes()[i] == b'&' {
-            for (ent, ch) in [
-                ("&lt;", '<'),
-                ("&gt;", '>'),
-                ("&amp;", '&'),
-                ("&quot;", '"'),
-                ("&#x27;", '\''),
-                ("&#x2f;", '/'),
-                ("&#39;", '\''),
-                ("&#34;", '"'),
-                ("&#47;", '/'),
-            ] {
-                if s[i..].starts_with(ent) {
+            if let Some(end) = s[i..].find(';').filter(|e| *e <= 10) {
+                let body = &s[i + 1..i + end];
+                let decoded = match body {
+                    "lt" => Some('<'),
+                    "gt" => Some('>'),
+                    "amp" => Some('&'),
+                    "quot" => Some('"'),
+                    "apos" => Some('\''),
+                    _ => {
+                        if let Some(hex) = body.strip_prefix("#x").or_else(|| body.strip_prefix("#X")) {
+                            u32::from_str_radix(hex, 16).ok().and_then(char::from_u32)
+                        } else if let Some(dec) = body.strip_prefix('#') {
+                            dec.parse::<u32>().ok().and_then(char::from_u32)
+                        } else {
+                            None
+                        }
+                    }
+                };
+                if let Some(ch) = decoded {
                     out.push(ch);
-                    i += ent.len();
+                    i += end + 1;
                     continue 'outer;
                 }
             }
